@@ -16,9 +16,9 @@ using namespace sim;
 namespace {
 
 struct DOp { unsigned kind; uint64_t seed; };
-enum { D_FLIP, D_BYTE, D_SECTOR_ZERO, D_SECTOR_GARBAGE, D_SECTOR_DUP, D_TRUNC, D_UINT_EDGE, D_RETYPE, D_NAME, D_DEEP, D_HUGELEN, D_HUGECOUNT, D_ALL_GARBAGE, D_LEN_FIELD, D_NKINDS };
+enum { D_FLIP, D_BYTE, D_SECTOR_ZERO, D_SECTOR_GARBAGE, D_SECTOR_DUP, D_TRUNC, D_UINT_EDGE, D_RETYPE, D_NAME, D_DEEP, D_HUGELEN, D_HUGECOUNT, D_ALL_GARBAGE, D_LEN_FIELD, D_TIME_FIELDS, D_NKINDS };
 const char* DN[] = {"bit-flip", "byte-overwrite", "sector-zeroed", "sector-garbage", "sector-duplicated", "truncation", "numeric-member-boundary", "major-type-changed",
-                    "hostile-name", "deep-nesting-under-unknown-key", "huge-string-length", "huge-container-count", "all-sectors-garbage", "length-field-overwritten"};
+                    "hostile-name", "deep-nesting-under-unknown-key", "huge-string-length", "huge-container-count", "all-sectors-garbage", "length-field-overwritten", "time-fields-at-boundaries"};
 
 void collect(ref::Node& n, std::vector<ref::Node*>& out) {
     out.push_back(&n);
@@ -87,6 +87,47 @@ std::string apply(const std::string& in, const DOp& op, std::string& note) {
                 v->bytes = nm;
                 note = "name@" + std::to_string(v->off) + " " + hex(nm, 12);
             }
+            f = ref::encode_preferred(root);
+            break;
+        }
+        case D_TIME_FIELDS: {
+            // all the numeric members the time arithmetic combines — ticks-per-second of every parameter set, earliest-time of every
+            // block, time offsets of its records — are set to boundary values together (each with probability 1/2)
+            if (!parse() || root.kids.size() != 3) break;
+            static const uint64_t TE[] = {0, 1, 999999999ULL, 0x7fffffffULL, 0x80000000ULL, 0xffffffffULL, 0x100000000ULL, 0x4000000000000000ULL, 0x7fffffffffffffffULL, 0x8000000000000000ULL, 0xfffffffffffffffeULL, 0xffffffffffffffffULL};
+            auto member = [](ref::Node& m, uint64_t key) -> ref::Node* {
+                if (!m.is_map()) return nullptr;
+                for (size_t i = 0; i + 1 < m.kids.size(); i += 2) if (m.kids[i].is_uint() && m.kids[i].arg == key) return &m.kids[i + 1];
+                return nullptr;
+            };
+            unsigned changed = 0;
+            // coherent variant (2 in 3): one tick rate for all sets and, per block, (seconds, ticks, offset) chosen so that the absolute
+            // tick count seconds*rate + ticks + offset — what the reader computes, modulo 2^64 — is itself a boundary value
+            static const uint64_t RATE[] = {1, 999999999ULL, 0x100000000ULL, 0x7fffffffffffffffULL, 0x8000000000000000ULL, 0xffffffffffffffffULL, 0};
+            static const uint64_t TOTAL[] = {0, 1, 0x100000000ULL, 0x7fffffffffffffffULL, 0x8000000000000000ULL, 0xffffffffffffffffULL};
+            const bool coherent = !r.chance(1, 3);
+            const uint64_t rate = r.pick(RATE);
+            auto set = [&](ref::Node* n, bool may_be_negative) {
+                if (!n || n->major > 1 || !r.coin()) return;
+                n->major = (may_be_negative && r.chance(1, 4)) ? 1 : 0;
+                n->arg = r.pick(TE);
+                changed++;
+            };
+            auto put = [&](ref::Node* n, uint64_t v) { if (n && n->major <= 1) { n->major = 0; n->arg = v; changed++; } };
+            if (ref::Node* bps = member(root.kids[1], 3))
+                for (auto& bp : bps->kids) if (ref::Node* sp = member(bp, 0)) { if (coherent) put(member(*sp, 0), rate); else set(member(*sp, 0), false); }
+            for (auto& blk : root.kids[2].kids) {
+                uint64_t total = r.pick(TOTAL), secs = r.coin() ? 0 : r.pick(TE), off = r.coin() ? 0 : r.pick(TE);
+                uint64_t ticks = total - secs * rate - off;   // modulo 2^64
+                if (ref::Node* pre = member(blk, 0))
+                    if (ref::Node* e = member(*pre, 0)) {
+                        if (coherent && e->kids.size() == 2) { put(&e->kids[0], secs); put(&e->kids[1], ticks); }
+                        else for (auto& x : e->kids) set(&x, false);
+                    }
+                for (uint64_t arr : {3, 5})
+                    if (ref::Node* items = member(blk, arr)) for (auto& it : items->kids) { if (coherent && r.coin()) put(member(it, 0), off); else set(member(it, 0), true); }
+            }
+            note = std::to_string(changed) + " members" + (coherent ? " (coherent, rate " + std::to_string(rate) + ")" : "");
             f = ref::encode_preferred(root);
             break;
         }
@@ -200,7 +241,7 @@ void sim::engine_damage(RunCtx& cx) {
     // ---- damage plan ------------------------------------------------------------------------------------------
     unsigned nops = (unsigned)r.range(1, 4);
     std::vector<DOp> ops;
-    for (unsigned i = 0; i < nops; i++) { DOp o; o.kind = (unsigned)r.below(D_NKINDS); o.seed = r.next(); ops.push_back(o); }
+    for (unsigned i = 0; i < nops; i++) { DOp o; o.kind = (unsigned)r.below(D_NKINDS + 1); if (o.kind >= D_NKINDS) o.kind = D_TIME_FIELDS; o.seed = r.next(); ops.push_back(o); }
     cx.n_ops = nops;
     std::string f = base;
     std::string kinds;
